@@ -192,7 +192,33 @@ func nontrivial(items []spec) bool {
 	return false
 }
 
+// chained tells whether some entity has exactly two providers and none has more (the chaining block
+// of resolve runs and no "ambiguous graph" error is due)
+func chained(items []spec) bool {
+	n := map[string]int{}
+	for _, s := range items {
+		seen := map[string]bool{}
+		for _, e := range s.prov {
+			if !seen[e] {
+				n[e]++
+				seen[e] = true
+			}
+		}
+	}
+	two := false
+	for _, k := range n {
+		if k > 2 {
+			return false
+		}
+		two = two || k == 2
+	}
+	return two
+}
+
 func emitSynth(c *Config, kind string, items []spec) {
+	if chained(items) && !strings.HasSuffix(kind, "-chained") {
+		kind += "-chained"
+	}
 	sx := make([]Sx, len(items))
 	for i, s := range items {
 		sx[i] = s.itemSx(i)
